@@ -5,9 +5,13 @@ Import ListNotations.
 From VIsa Require Import IsaState IsaFloat ExecImpl ExecSpec ExecImplV ExecSpecV ExecImplF ExecSpecF ExecProofs ExecRows ExecVProofs ExecVRowsA ExecVProofs64 ExecFRows ExecFRows64 ExecFThm.
 Open Scope Z_scope.
 
-(** v_cvt_f64_i32, v_cvt_f32_f64, v_cvt_f64_f32, v_add_f64, v_mul_f64 (both ALUs) *)
-Definition frows64 : list (format * Z) :=
-  [(F_VOP1, 4); (F_VOP1, 15); (F_VOP1, 16); (F_VOP3A, 640); (F_VOP3A, 641)].
+(** v_cvt_f64_i32, v_cvt_f32_f64, v_cvt_f64_f32, v_add_f64, v_mul_f64 (both ALUs),
+    v_cvt_f64_u32 (implemented by the CDNA3 ALU only) *)
+Definition frows64 (a : arch) : list (format * Z) :=
+  match a with
+  | GCN3 => [(F_VOP1, 4); (F_VOP1, 15); (F_VOP1, 16); (F_VOP3A, 640); (F_VOP3A, 641)]
+  | CDNA3 => [(F_VOP1, 4); (F_VOP1, 15); (F_VOP1, 16); (F_VOP3A, 640); (F_VOP3A, 641); (F_VOP1, 22)]
+  end.
 Definition fmodes_of (f : format) (op : Z) : omode * omode * omode :=
   match f, op with
   | F_VOP1, 15 => (M64, M32, M32)
@@ -29,36 +33,40 @@ Ltac row_case_f64 x L := eapply (row_agree_f64 _ _ _ _ _ _ L); eauto;
   [destruct x; eexists; reflexivity | destruct x; eexists; reflexivity
   | intros [E1 E2]; try discriminate E1; try discriminate E2].
 
-Theorem float_agree64 : forall a st i, In (i_fmt i, i_op i) frows64 -> wf st -> 0 <= i_lit i < W32 ->
+Theorem float_agree64 : forall a st i, In (i_fmt i, i_op i) (frows64 a) -> wf st -> 0 <= i_lit i < W32 ->
   (forall d r, vdesc_f a (i_fmt i) (i_op i) = Some d -> vrow_f a (i_fmt i) (i_op i) = Some r ->
      let '(m0, m1, m2) := fmodes_of (i_fmt i) (i_op i) in vadm64 m0 m1 m2 d r i) ->
   agree_vf a st i.
 Proof.
   intros a st i Hin Hwf Hl Hadm.
   remember (i_fmt i) as f eqn:Ef. remember (i_op i) as op eqn:Eo. symmetry in Ef, Eo.
-  unfold frows64 in Hin; cbn [In] in Hin.
-  repeat (destruct Hin as [Hin|Hin]; [injection Hin as <- <-|]); try contradiction; cbn [fmodes_of] in Hadm.
-  - row_case_f64 a (r_x_vop1_4 a).
-  - row_case_f64 a (r_x_vop1_15 a).
-  - row_case_f64 a (r_x_vop1_16 a).
-  - row_case_f64 a (r_x_vop3a_640 a).
-  - row_case_f64 a (r_x_vop3a_641 a).
+  destruct a; unfold frows64 in Hin; cbn [In] in Hin;
+    repeat (destruct Hin as [Hin|Hin]; [injection Hin as <- <-|]); try contradiction; cbn [fmodes_of] in Hadm.
+  - row_case_f64 GCN3 (r_x_vop1_4 GCN3).
+  - row_case_f64 GCN3 (r_x_vop1_15 GCN3).
+  - row_case_f64 GCN3 (r_x_vop1_16 GCN3).
+  - row_case_f64 GCN3 (r_x_vop3a_640 GCN3).
+  - row_case_f64 GCN3 (r_x_vop3a_641 GCN3).
+  - row_case_f64 CDNA3 (r_x_vop1_4 CDNA3).
+  - row_case_f64 CDNA3 (r_x_vop1_15 CDNA3).
+  - row_case_f64 CDNA3 (r_x_vop1_16 CDNA3).
+  - row_case_f64 CDNA3 (r_x_vop3a_640 CDNA3).
+  - row_case_f64 CDNA3 (r_x_vop3a_641 CDNA3).
+  - eapply (row_agree_f64 _ _ _ _ _ _ r_c_vop1_22); eauto;
+      [eexists; reflexivity | eexists; reflexivity | intros [E1 E2]; discriminate E2].
 Qed.
 
-(** ** CDNA3 v_cvt_f64_u32: only the low dword of the binary64 result is written
-    (amd/insts/decodetable.go gives the opcode DSTWidth 32, so WriteOperand
-    stores 4 bytes).  Witness: lane 0 active, v0 = 1065353217, destination
-    v3:v4 with v4 = 0 before: the manual's result has a non-zero high dword. *)
+(** ** CDNA3 v_cvt_f64_u32 before the repair: the decode table declared a 32-bit
+    destination, WriteOperand stored only the low dword (descriptor with
+    destination RegCount 0).  Witness kept: lane 0 active, v0 = 1065353217,
+    destination v3:v4 with v4 = 0 before - the manual's high dword is non-zero. *)
 Definition cvt_f64_u32_witness : inst := mkInst F_VOP1 22 256 0 0 259 0 0.
-Lemma c_cvt_f64_u32 : i_fmt cvt_f64_u32_witness = F_VOP1 /\ i_op cvt_f64_u32_witness = 22 /\ wf (fst0 0) /\
-  ~ agree_vf CDNA3 (fst0 0) cvt_f64_u32_witness.
-Proof.
-  split; [reflexivity|split; [reflexivity|split; [apply wf_fst0; unfold W32; lia|]]].
-  apply (vdiffers_not_agree _ _ _ 0 4). vm_compute. reflexivity.
-Qed.
-(** what does hold: the dword that is written is the low dword of the manual's result *)
-Lemma c_cvt_f64_u32_low : forall d r, vdesc_f CDNA3 F_VOP1 22 = Some d -> vrow_f CDNA3 F_VOP1 22 = Some r ->
-  forall a b c cin, exists v, fst (vd_f d a b c cin) = Some v /\ u32 v = r_val r (u32 a) b c cin mod W32.
-Proof.
-  intros d0 r0 Hd0 Hr0 a b c cin. revert d0 r0 Hd0 Hr0. open_rowf. cbn [vd_f r_val fst val]. eexists. split; [reflexivity|]. reflexivity.
-Qed.
+Definition vd_cvt_f64_u32_before_fix : vdesc :=
+  mkV 1 0 0 0 0 CNone MNone (fun a _ _ _ => val (f64_of_Z (u32 a))).
+Lemma c_cvt_f64_u32_before_fix :
+  match run_d vd_cvt_f64_u32_before_fix (fst0 0) cvt_f64_u32_witness, exec_spec_vf CDNA3 (fst0 0) cvt_f64_u32_witness,
+        exec_vector_f CDNA3 (fst0 0) cvt_f64_u32_witness with
+  | Some s1, Some s2, Some s3 => vgpr s1 0 4 = 0 /\ vgpr s2 0 4 = 1104134144 /\ vgpr s3 0 4 = 1104134144
+  | _, _, _ => False
+  end.
+Proof. vm_compute. repeat split; reflexivity. Qed.
